@@ -442,6 +442,17 @@ bool TypeAuditor::ViGlobal(Cursor iter) {
     );
     return false;
   }
+  // Note: grammar allows identifiers only as terms, so a logical constituent has no typification to offer
+  // to an operation. It is still accepted when it constitutes the whole expression
+  if (!std::holds_alternative<Typification>(*type) &&
+      !iter.IsRoot() && iter.Parent().id != TokenID::PUNC_DEFINE) {
+    OnError(
+      SemanticEID::globalNotTyped,
+      iter->pos.start,
+      alias
+    );
+    return false;
+  }
   return SetCurrent(*type);
 }
 
